@@ -19,6 +19,8 @@ RULE = ("build: generated L_Data frames from telegram parts - destination kinds 
 TRUSTED = c12.TRUSTED + ["for `build`/`reser` lines the payload's canonical encoding payload.to_knx() and calculated_length() are inputs of "
                          "the model line (C05/C06 cover the APCI codec); C13's theorems assume exactly the codec laws stated in Props/C13.lean"]
 CASE_TIMEOUT = 2.0
+MODULES = ["XknxVerif.Props.C13", "XknxVerif.Props.C13APCI"]
+NAMESPACES = ["XknxVerif.Props.C13"]
 
 
 def setup():
@@ -81,6 +83,7 @@ def generate(rng, tier):
     # NPDU length 255 (reserved escape code): accepted by the parser, refused by the serialiser - documented exclusion
     yield {"kind": "reser", "raw": "2900bce011010901ff0080" + "ab" * 254}
     yield {"kind": "reser", "raw": "2900bce011010901fe0080" + "ab" * 253}
+    yield {"kind": "reser", "raw": "2900b0601101110205" + "41fdfb000000"}   # A_MemoryExtended_Read count 251: decodes, to_knx refuses
     # re-serialisation of received frames: reuse C12's generator, keep what the implementation accepts
     for c in c12.generate(rng, tier):
         if len(c["raw"]) >= 14:
@@ -111,7 +114,11 @@ def run_impl(case):
             return {"out": "rejected", "line": None}
         d = fr.data
         if isinstance(d, CEMILData) and d.payload is not None:
-            ap, alen = cc.hx(d.payload.to_knx()), d.payload.calculated_length()
+            try:
+                ap, alen = cc.hx(d.payload.to_knx()), d.payload.calculated_length()
+            except ConversionError:
+                # C05's antecedent: the decoded service refuses to encode again (e.g. A_MemoryExtended_Read count 251)
+                return {"out": "payload-refuses", "line": None}
         else:
             ap, alen = "none", 0
         try:
@@ -195,7 +202,7 @@ def oracle(case, out):
             return f"parsed-back frame differs: {cc.render_frame(fr2)} vs {cc.render_frame(fr)}"
         return None
     # reser
-    if out == "rejected":
+    if out in ("rejected", "payload-refuses"):
         return None
     fr = case.pop("_fr")
     raw = bytes.fromhex(case["raw"])
